@@ -34,6 +34,7 @@ class Run:
         self.final_state = None
         self.raised = None
         self.circuit = None
+        self.initial = None
 
 
 class CompileMonitor:
@@ -72,6 +73,7 @@ class CompileMonitor:
         r.det = getattr(comp, "_measurement_determinism", None)
         r.noise_sim = getattr(comp, "_noise_simulation", None)
         r.circuit = loc.get("circuit")
+        r.initial = loc.get("initial_state")
         self.cur = r
         self.runs.append(r)
         self.open = []
